@@ -1415,3 +1415,106 @@ def r06_14(ctx):
 
 def in_scope_repr(F, adt):
     return not any(x in adt for x in ('::rpl::', '::ipsec', 'pretty_print'))
+
+
+@rule('R13.11', ['C13', 'C02'], floor=1, clause='Interface::poll_at answers the earlier of the sockets\' deadline and the SLAAC deadline when both exist: the two are compared (min / an ordering test), neither simply takes precedence')
+def r13_11(ctx):
+    F = ctx.F
+    IF = 'iface::interface::Interface'
+    b = ctx.method(IF, 'poll_at')
+    sl = [k for k in F.bodies if k.endswith('slaac::Slaac::poll_at')]
+    ctx.need(sl, "Slaac::poll_at")
+    uses = [x for x in b.calls() if b.callee_name(x[1]) in sl]
+    if not uses:
+        ctx.ok(('poll_at', 'no slaac in this configuration'))
+        return
+    is_slaac = lambda n: any(l == 'C:' + sl[0] for l in leafs(n))
+    other = lambda n: any(l.startswith('C:') and ('socket' in l or 'Meta' in l or 'fold' in l or 'filter_map' in l or 'min' in l.rsplit('::', 1)[-1]) and l != 'C:' + sl[0] for l in leafs(n)) \
+        or any(l.startswith('F:') and 'fragmenter' in l.lower() for l in leafs(n))
+    ok = False
+    for x in b.calls():
+        nm = (b.callee_name(x[1]) or (x[1].get('fn') if isinstance(x[1], dict) else '') or '')
+        if nm.rsplit('::', 1)[-1] == 'min' and len(x[2]) == 2:
+            o0 = F.origin.operand(b, x[2][0], x[0], len(b.blocks[x[0]]['s']))
+            o1 = F.origin.operand(b, x[2][1], x[0], len(b.blocks[x[0]]['s']))
+            if (is_slaac(o0) and not is_slaac(o1)) or (is_slaac(o1) and not is_slaac(o0)):
+                ok = True
+    if not ok:
+        for bi, bl in enumerate(b.blocks):
+            if bl['cl'] or bl['t'][0] != 'switch':
+                continue
+            for tb, lab, f in cond_facts(F, b, bi):
+                if f[0] == 'rel' and f[1] in ('Lt', 'Le', 'Gt', 'Ge') and ((is_slaac(f[2]) and not is_slaac(f[3])) or (is_slaac(f[3]) and not is_slaac(f[2]))):
+                    ok = True
+    if ok:
+        ctx.ok(('poll_at', 'min(sockets, slaac)'), sample=dict(fn='Interface::poll_at', combines='min of the socket deadline and the SLAAC deadline'))
+    else:
+        ctx.bad("Interface::poll_at|slaac-not-compared", "Interface::poll_at never compares the SLAAC deadline with the sockets' deadline: with both present one of them simply wins, "
+                "so a router solicitation / prefix expiry that is due earlier than every socket timer is not reported and the stack acts before the instant it announced", body=b, bb=uses[0][0])
+
+
+@rule('R12.9', ['C12', 'C09'], floor=1, clause='the total size of a datagram under reassembly is computed from the last fragment as offset + (total length - header length), all three read from the received packet itself (a header with options is longer than the one the stack would emit)')
+def r12_9(ctx):
+    F = ctx.F
+    PA = 'iface::fragmentation::PacketAssembler'
+    sts = F.method(PA, 'set_total_size')
+    ctx.need(sts is not None, "PacketAssembler::set_total_size")
+    n = 0
+    for k, b in sorted(F.bodies.items()):
+        if '::test' in k or not k.endswith('::process_ipv4'):
+            continue
+        for x in b.calls():
+            if b.callee_name(x[1]) != sts.key or len(x[2]) < 2:
+                continue
+            n += 1
+            o = simplify(F.origin.operand(b, x[2][1], x[0], len(b.blocks[x[0]]['s'])))
+            l, c = lin(o)
+            sig = {}
+            for a, v in l.items():
+                a0 = strip(a)
+                while a0[0] == 'cast':
+                    a0 = strip(a0[1])
+                nm = a0[1].rsplit('::', 1)[-1] if a0[0] == 'call' else show(a0)[:30]
+                own = a0[0] == 'call' and a0[1].startswith('wire::ipv4::Packet')
+                sig[(nm, own)] = sig.get((nm, own), 0) + v
+            want = {('total_len', True): 1, ('header_len', True): -1, ('frag_offset', True): 1}
+            if sig == want and c == 0:
+                ctx.ok(('process_ipv4', 'total size'), sample=dict(fn='process_ipv4', total_size='frag_offset() + total_len() - header_len() of the received packet'))
+            else:
+                ctx.bad("process_ipv4|reassembly-total-size", f"process_ipv4 sets the reassembly total size to {show(o)[:90]}: expected frag_offset() + total_len() - header_len() of the "
+                        "received packet - with another header length (e.g. the 20 octets the stack itself emits) a last fragment that carries IP options gives a total that is never reached", body=b, bb=x[0])
+    ctx.need(n >= 1, "set_total_size call in process_ipv4")
+
+
+@rule('R14.8', ['C14', 'C09'], floor=2, clause='both PacketBuffer enqueue entry points decide the wrap-around case by the same test: what is left at the start of the ring after padding out the tail (window - contiguous window) is compared with the requested size')
+def r14_8(ctx):
+    F = ctx.F
+    PB = 'storage::packet_buffer::PacketBuffer'
+    for fn in ('enqueue', 'enqueue_with_infallible'):
+        b = ctx.method(PB, fn)
+        found = False
+        wrong = None
+        for bi, bl in enumerate(b.blocks):
+            if bl['cl'] or bl['t'][0] != 'switch':
+                continue
+            for tb, lab, f in cond_facts(F, b, bi):
+                if f[0] != 'rel' or f[1] not in ('Lt', 'Le', 'Gt', 'Ge'):
+                    continue
+                for x, y in ((f[2], f[3]), (f[3], f[2])):
+                    l, c = lin(simplify(x))
+                    names = {}
+                    for a, v in l.items():
+                        a0 = strip(a)
+                        if a0[0] == 'call':
+                            names[a0[1].rsplit('::', 1)[-1]] = names.get(a0[1].rsplit('::', 1)[-1], 0) + v
+                    if names.get('contiguous_window') == -1 and c == 0 and any(l_.startswith('A:') for l_ in leafs(y)):
+                        if names == {'window': 1, 'contiguous_window': -1}:
+                            found = True
+                        else:
+                            wrong = (bi, names)
+        if found and not wrong:
+            ctx.ok((fn, 'wrap-around test'), sample=dict(fn=fn, test='window() - contiguous_window() < size'))
+        else:
+            ctx.bad(f"{fn}|wrap-around-test", f"PacketBuffer::{fn} does not decide the wrap-around case by `window() - contiguous_window() < size`" +
+                    (f" (it compares {wrong[1]})" if wrong else '') + ": a packet that does not fit at the start of the ring is admitted - padding is queued, a metadata slot is taken and "
+                    "the caller is handed a slice shorter than it asked for", body=b, bb=wrong[0] if wrong else None)
